@@ -48,6 +48,14 @@ def check(ctx: Ctx):
 
     _col17.check_safe_removal(ctx, "droplets.emulsions.Emulsion.remove_small", "radius", (ast.LtE,), "radius <= min_radius", param="min_radius")
     spectrum.check_mode_order_in_length_scale(ctx)
+    # the droplet count passes the duplicate filter of the Cartesian locator: which droplet of an overlapping chain survives must
+    # not depend on the order in which the clusters were numbered (closest pair first, smaller one removed), or the count changes
+    # when the periodic box is cut elsewhere
+    from ..rules import support as _support
+
+    _support.compose(ctx, _col17.check_remove_overlapping, keep=("GUARDSHAPE", "EFFECT", "PAIR"))
+    ctx.expect("GUARDSHAPE", 4)
+    ctx.expect("EFFECT", 1)
     ctx.expect("PERMINV", 1)
     ctx.expect("REMOVE", 1)
     ctx.expect("DTYPE", 2)
